@@ -401,6 +401,8 @@ def element(ctx, depth):
         stmts["attributes"] = entries
     if ctx.opts.get("onerror") and d(st.integers(0, 9)) < ctx.opts["onerror"]:
         c = d(st.integers(0, 9))
+        if ctx.opts.get("onerror_simple"):
+            c = 0
         if c <= 3:
             e = ["const", d(st.sampled_from(["'E'", "'<b>err</b>'", "''",
                                              "None", "'a&b'"]))]
